@@ -22,7 +22,7 @@ PROPERTY = "C19"
 TECHNIQUE = "contract on the real PackInteger + independent byte-level re-decoding (standard ULEB/SLEB decoders, strict section/body size accounting) of modules written by the real writer"
 LEVEL_TEXT = ("Exhaustive over the boundary set {2^(7k-1), 2^(7k)} +- {0,1} for k = 1..5, both signs, plus 0, +-1, 2^31-1, -2^31, 2^32-1 "
               "and 10^4-10^5 random values, at the PackInteger interface (contract) and *in place*: as i32.const immediates of "
-              "compiled programs `return a + K`, as local counts (1..70 000), function counts (1..300), export-name lengths "
+              "compiled programs `return a + K`, as local counts (1..70 000) and numbers of local declarations (1..300, compared type by type), function counts (1..300), export-name lengths "
               "(1..20 000 bytes, incl. multi-byte UTF-8), body sizes and section sizes of modules built through the writer's API; "
               "each written module is decoded by the independent decoder and compared field by field with what was requested.")
 LEVEL_NOTE = ("Trusted: the textbook LEB128 decoders in nslverif/ref/leb.py and the strict reference decoder. Padding (redundant "
